@@ -14,7 +14,10 @@ def spec_batch(pairs):
         p = p[0]
         out.append({"nodes": nodes, "schema": G.schema_sx(nodes), "evalue": v, "enc": p[1], "canon": p[2],
                     "conforms": p[3] == "1", "layout_ok": p[4] == "1", "dany": C.show_sx(p[5]),
-                    "present": C.show_sx(p[6]), "ttarget": C.show_sx(p[7]), "dtyped": C.show_sx(p[8])})
+                    "present": C.show_sx(p[6]), "ttarget": C.show_sx(p[7]), "dtyped": C.show_sx(p[8]),
+                    # the second family of Rust types (spec/DenoteOpt.v): positions kept optional although the union is
+                    # not [null,T]: Option<enum of the non-null branches>
+                    "otarget": C.show_sx(p[9]), "dopt": C.show_sx(p[10])})
     return out
 
 def both(lines):
